@@ -40,6 +40,9 @@
 (*  two separate acquisitions of its lock - then KillSend; EnvError        *)
 (*  Crash            SIGKILL of the core at any point                       *)
 (*  DropConnection   the master closes the event stream                    *)
+(*  StreamError      the master sends an ERROR event on the stream         *)
+(*  CleanupNamed(e)  gRPC CleanupTasks naming the locked tasks of a live   *)
+(*                   environment: refused by KillTasks' filter              *)
 (*                                                                         *)
 (* Deviations of the tree as found (TRUE = as found):                      *)
 (*  Code_ReconcileKillIgnoresRoster  handleMessage sends KILL for every    *)
@@ -300,6 +303,16 @@ DropConnection ==
   /\ mstream' = 0 /\ rq' = {} /\ conn' = "down" /\ drops' = (IF owed THEN drops ELSE drops + 1) /\ owed' = FALSE
   /\ UNCHANGED <<store, mfw, mt, up, life, cfid, sfid, nsubl, roster, lock, pend, env, etasks, rcv, snap, kq, lost, killed, crashes>>
 
+\* Mesos sends an ERROR event on the stream (scheduler library: subscription over, subscribe again): for the core a
+\* disconnection like any other - same identity afterwards
+StreamError == DropConnection
+
+\* gRPC CleanupTasks with an explicit list naming the tasks of a live environment: Manager.KillTasks' filter refuses locked
+\* tasks - nothing is killed, nothing leaves the roster
+CleanupNamed(e) ==
+  /\ up /\ env[e] \in {"configured", "running"}
+  /\ UNCHANGED vars
+
 ---------------------------------------------------------------------------
 Recovery ==
   \/ CoreStart \/ Subscribe \/ Resubscribe \/ (\E id \in 1..(MaxCrash + 2) : Subscribed(id)) \/ StoreFid \/ Reconcile
@@ -308,8 +321,9 @@ LifeCycle ==
   \/ \E e \in Envs : \/ NewEnv(e) \/ (\E T \in SUBSET Tasks : Launch(e, T)) \/ Lock(e) \/ RosterAppend(e)
                      \/ ConfigureSend(e) \/ ConfigureDone(e) \/ StartSend(e) \/ StartDone(e)
                      \/ Release(e) \/ RosterRemove(e) \/ RosterRead(e) \/ RosterWrite(e) \/ KillSend(e) \/ EnvError(e)
+                     \/ CleanupNamed(e)
   \/ \E t \in Tasks : TaskRunning(t)
-Faults == Crash \/ DropConnection \/ \E t \in Tasks : KillLost(t) \/ KillRefused(t)
+Faults == Crash \/ DropConnection \/ StreamError \/ \E t \in Tasks : KillLost(t) \/ KillRefused(t)
 
 Next == Recovery \/ LifeCycle \/ Faults
 
